@@ -21,7 +21,9 @@ LEVEL = "proof"
 RULE = ("spea2: exhaustive 1-objective/2-objective tiny populations (n<=4, values in {0,1}) x every k, plus "
         "structured random populations n<=14, 2-5 objectives of mixed sign, small integer values, every "
         "branch (archive exact / too small / too large); nsga3: populations n<=14 (grid, continuous, "
-        "single point, collinear, chain, two-level), k in 1..n, both nd back-ends, generator reference "
+        "single point, collinear, chain, two-level, one cut front with mixed-sign non-unit weights, axis-hugging "
+        "rows at the 1e6 ASF weight, fronts scaled to the 1e-6 intercept guard, shared objective prefixes "
+        "for the log-time sort), k in 1..n, both nd back-ends, generator reference "
         "points M=nobj, p in 1..8, scaling none or 1/2, plain and with memory over 3 consecutive calls; "
         "niching/associate also driven directly on synthetic inputs; refs: every M in 1..6 x p in 1..8 x "
         "scaling in {none,1/2,1/4}; qsel: random arrays with duplicates. Non-trivial = distinct case that "
@@ -30,8 +32,10 @@ EXHAUSTIVE = {"quick": False, "thorough": False}
 TIME_BUDGET = {"quick": 60, "thorough": 900}
 TRUSTED = ["pareto_fronts are taken from the real sortNondominated/sortLogNondominated (verified by C04); "
            "the front-priority oracle recomputes the ranks by brute force",
-           "find_extreme_points/find_intercepts (numpy.linalg.solve with fallbacks) are not modelled: the "
-           "association is checked relative to the best_point/intercepts the code computed",
+           "numpy.linalg.solve (LAPACK) is not modelled: its answer (or LinAlgError) is the model's `solve` "
+           "parameter and is transported from the implementation; everything around it (ideal/worst point, "
+           "find_extreme_points, the fallbacks and acceptance test of find_intercepts, the normalisation) is "
+           "modelled and compared; the oracle rebuilds the minimised objective matrix from the individuals",
            "numpy elementwise arithmetic/argmin/unique/flatnonzero semantics; Lean Float = IEEE binary64 "
            "(association compared with relative tolerance 1e-9)",
            "SPEA2 density values fits[i] are read from the running implementation (frame locals); the "
@@ -227,6 +231,19 @@ class Capture(object):
             if cap.cur is not None:
                 cap.cur.update(n_sel=list(sel), n_counts1=numpy.array(niche_counts))
             return sel
+        self.saved_solve = numpy.linalg.solve
+
+        def solve(A, b):
+            try:
+                x = self.saved_solve(A, b)
+            except numpy.linalg.LinAlgError:
+                if cap.cur is not None:
+                    cap.cur["solve"] = "sing"
+                raise
+            if cap.cur is not None:
+                cap.cur["solve"] = numpy.array(x)
+            return x
+        numpy.linalg.solve = solve
         emo.sortNondominated = wrap_sort("sortNondominated")
         emo.sortLogNondominated = wrap_sort("sortLogNondominated")
         emo.associate_to_niche = assoc
@@ -236,6 +253,7 @@ class Capture(object):
     def __exit__(self, *a):
         for n, f in self.saved.items():
             setattr(emo, n, f)
+        numpy.linalg.solve = self.saved_solve
         return False
 
 
@@ -314,7 +332,14 @@ def independent_normalisation(F, mem):
     return best, intercepts, {"best": best, "worst": worst, "extreme": extreme}
 
 
-def nsga3_call_oracle(pop, wv, sel, k, cap, refs, mem):
+def min_matrix(pop, wv, cap):
+    """the minimised objective matrix, built by the harness from the individuals: -(value * weight), in the
+    order of the flattened fronts (only the *order* comes from the sort; the numbers do not)."""
+    flat = positions(pop, [x for fr in cap["fronts"] for x in fr])
+    return flat, numpy.array([[-x for x in wv[p]] for p in flat], dtype=float)
+
+
+def nsga3_call_oracle(pop, wv, sel, k, cap, refs, mem, flat, F):
     """wv: weighted values computed by the harness from the case description.  Returns
     (message, positions, near_tie, new independent memory)."""
     msg, pos = common_oracle(pop, sel, k, "selNSGA3")
@@ -328,10 +353,6 @@ def nsga3_call_oracle(pop, wv, sel, k, cap, refs, mem):
             x = next(p for p in pos if rank[p] > rank[q])
             return ("individual %d of front %d is left out although individual %d of front %d is selected"
                     % (q, rank[q], x, rank[x])), pos, False, mem
-    # the minimised objective matrix, built here from the individuals: -(value * weight), in the order of
-    # the flattened fronts (only the *order* comes from the sort; the numbers do not)
-    flat = positions(pop, [x for fr in cap["fronts"] for x in fr])
-    F = numpy.array([[-x for x in wv[p]] for p in flat], dtype=float)
     best, intercepts, mem2 = independent_normalisation(F, mem)
     # (a) the association the implementation used, judged in the independently normalised space
     if len(cap["niches"]) != len(flat):
@@ -358,7 +379,7 @@ def ref_points(M, p, scaling):
     return tools.uniform_reference_points(M, p, None if scaling is None else float(Fr(scaling)))
 
 
-def nsga3_lines(pop, cap, k, sel_pos, near, memory=None):
+def nsga3_lines(pop, cap, k, sel_pos, near, memory=None, norm=None):
     """protocol lines + expected answers for one captured selNSGA3 call."""
     lines, expect = [], []
     fronts = [positions(pop, fr) for fr in cap["fronts"]]
@@ -372,11 +393,22 @@ def nsga3_lines(pop, cap, k, sel_pos, near, memory=None):
                                                      flist(cap["n_dist"]), ilist(cap["n_counts0"]), tape_tok(cap["draws"])))
     lastpos = positions(cap["n_individuals"], cap["n_sel"])
     expect.append("%s %s" % (ilist(lastpos), ilist(cap["n_counts1"])))
-    if numpy.all(numpy.isfinite(cap["dist"])):
-        op = "assocd" if near else "assoc"
-        lines.append("C07 %s %s %s %s %s" % (op, flist2(cap["fitnesses"]), flist2(cap["refs"]), flist(cap["best"]),
-                                            flist(cap["intercepts"])))
-        expect.append(flist(cap["dist"]) if near else "%s %s" % (ilist(cap["niches"]), flist(cap["dist"])))
+    # normalisation + association by the model's own chain, from the harness-built matrix, the harness's
+    # copy of the memory and the answer of numpy.linalg.solve (the model's `solve` parameter)
+    F, imem, impl = norm
+    sol = cap.get("solve")
+    if sol is not None and numpy.all(numpy.isfinite(F)):
+        mtoks = ("none", "none", "none") if imem is None else (
+            flist(imem["best"]), flist(imem["worst"]), "none" if imem["extreme"] is None else flist2(imem["extreme"]))
+        stok = "sing" if isinstance(sol, str) else flist(sol)
+        lines.append("C07 norm %s %s %s %s %s" % ((flist2(F),) + mtoks + (stok,)))
+        expect.append("%s %s %s %s" % (flist(numpy.array(impl.best_point).reshape(-1)),
+                                       flist(numpy.array(impl.worst_point).reshape(-1)),
+                                       flist2(impl.extreme_points), flist(numpy.array(cap["intercepts"]).reshape(-1))))
+        if numpy.all(numpy.isfinite(cap["dist"])):
+            op = "nassocd" if near else "nassoc"
+            lines.append("C07 %s %s %s %s %s %s %s" % ((op, flist2(F), flist2(cap["refs"])) + mtoks + (stok,)))
+            expect.append(flist(cap["dist"]) if near else "%s %s" % (ilist(cap["niches"]), flist(cap["dist"])))
     if memory is not None:
         b0, w0, mem = memory
         lines.append("C07 mem %s %s %s" % (flist2(cap["fitnesses"]), flist(b0), flist(w0)))
@@ -429,6 +461,7 @@ def eval_nsga3(d):
     lines, expect, msg = [], [], None
     rng = _random.Random(d.get("seed", 0))
     # the harness's own copy of the memory (selNSGA3WithMemory.__init__: +inf / -inf / None)
+    branch = None
     imem = None if selector is None else {"best": numpy.full(M, numpy.inf), "worst": numpy.full(M, -numpy.inf),
                                           "extreme": None}
     for vals, k in zip(pops, ks):
@@ -439,22 +472,33 @@ def eval_nsga3(d):
                 b0 = numpy.array(selector.best_point).reshape(-1)
                 w0 = numpy.array(selector.worst_point).reshape(-1)
                 sel = selector(pop, k)
-                memory = (b0, w0, emo.NSGA3Memory(selector.best_point, selector.worst_point, selector.extreme_points))
+                impl = emo.NSGA3Memory(selector.best_point, selector.worst_point, selector.extreme_points)
+                memory = (b0, w0, impl)
             else:
-                sel = tools.selNSGA3(pop, k, refs, nd=d["nd"])
+                sel, impl = tools.selNSGA3(pop, k, refs, nd=d["nd"], return_memory=True)
                 memory = None
         cap = cp.calls[-1]
         cap["draws"] = sh.draws
-        m, pos, near, imem = nsga3_call_oracle(pop, wv, sel, k, cap, refs, imem)
+        flat, F = min_matrix(pop, wv, cap)
+        imem0 = imem
+        sol = cap.get("solve")
+        if branch is None:
+            if isinstance(sol, str):
+                branch = "sing"
+            elif sol is not None and numpy.all(sol != 0) and numpy.array_equal(1 / sol, numpy.array(cap["intercepts"]).reshape(-1)):
+                branch = "hyperplane"
+            else:
+                branch = "frontworst"
+        m, pos, near, imem = nsga3_call_oracle(pop, wv, sel, k, cap, refs, imem, flat, F)
         if m and msg is None:
             msg = m
         if any(p is None for p in pos):
             break
-        l, e = nsga3_lines(pop, cap, k, pos, near, memory)
+        l, e = nsga3_lines(pop, cap, k, pos, near, memory, (F, imem0, impl))
         lines += l
         expect += e
     n = len(pops[0])
-    tag = "%s/%s/%s/m=%d%s" % (d["k"], d.get("shape", "?"), d["nd"], M, "/scaled" if d.get("scaling") else "")
+    tag = "%s/%s/%s/m=%d%s/%s" % (d["k"], d.get("shape", "?"), d["nd"], M, "/scaled" if d.get("scaling") else "", branch)
     return Case(d, lines, expect, msg, tag=tag, nontrivial=(n > 1 and ks[0] < n), tol=1e-9)
 
 
@@ -635,8 +679,23 @@ def front_vals(rng, n, w):
     return [[float(-Fr(x) / Fr(ww)) for x, ww in zip(pt, w)] for pt in pts]
 
 
+def asf_vals(rng, n, w):
+    """rows hugging the axes with off-axis coordinates of the order 1e-6 (in minimisation form), so that the
+    1e6 weight of the achievement scalarising function decides which row is the extreme point."""
+    m = len(w)
+    pts = []
+    for _ in range(n):
+        j = rng.randrange(m)
+        pts.append([rng.choice([1.0, 2.0, 3.0, 3.5, 4.0, 5.0]) if t == j else rng.randint(0, 6) * 1e-6 * rng.choice([1, 1, 0.1])
+                    for t in range(m)])
+    return [[-x / float(Fr(ww)) for x, ww in zip(pt, w)] for pt in pts]
+
+
 def gen_nsga3(rng, nmax=14, mem=False):
-    m = rng.randint(2, 5)
+    # "prefix": >= 3 objectives, log-time sort, individuals that agree on the first objectives and differ
+    # only in later ones (the one-element base case of sortNDHelperB)
+    prefix = rng.random() < 0.12
+    m = rng.randint(3, 5) if prefix else rng.randint(2, 5)
     w = rand_weights(rng, m)
     if rng.random() < 0.35:
         # at least one maximised objective, non-unit magnitudes likely
@@ -645,18 +704,40 @@ def gen_nsga3(rng, nmax=14, mem=False):
             w[rng.randrange(m)] = rng.choice(["1", "2", "1/2"])
     p = rng.randint(1, 8 if (m <= 3 or rng.random() < 0.08) else (5 if m == 4 else 4))
     scaling = rng.choice([None, None, "1/2"])
-    nd = rng.choice(["log", "standard"])
+    nd = "log" if prefix else rng.choice(["log", "standard"])
     shape = rng.choice(SHAPES)
     integer = rng.random() < 0.6
 
-    if rng.random() < 0.3:
+    r0 = rng.random()
+    if prefix:
+        shape = "prefix"
+    elif r0 < 0.3:
         shape = "front"
+    elif r0 < 0.38:
+        shape = "asf"
+    elif r0 < 0.46:
+        shape = "tiny"          # a front scaled by 2^-23: intercepts around the 1e-6 guard
 
     def one():
         n = rng.randint(1, nmax)
         if shape == "front":
             n = max(n, 3)
             return front_vals(rng, n, w), rng.randint(1, n - 1)     # the last front has to be cut
+        if shape == "prefix":
+            n = max(n, 3)
+            heads = [[rng.randint(0, 1) for _ in range(m - 1)] for _ in range(rng.randint(1, 3))]
+            vals = [list(rng.choice(heads)) + [rng.randint(0, 3)] for _ in range(n)]
+            for v in vals:
+                if rng.random() < 0.3:
+                    v[rng.randrange(m)] = rng.randint(0, 2)
+            return vals, rng.randint(1, n)
+        if shape == "asf":
+            n = max(n, 3)
+            return asf_vals(rng, n, w), rng.randint(1, n)
+        if shape == "tiny":
+            n = max(n, 3)
+            sc = 2.0 ** -rng.choice([23, 23, 22, 24])
+            return [[x * sc for x in row] for row in front_vals(rng, n, w)], rng.randint(1, n)
         vals = gen_vals(rng, n, m, shape, integer)
         r = rng.random()
         k = n if r < 0.12 else (1 if r < 0.2 else rng.randint(1, n))
